@@ -810,7 +810,7 @@ pub fn run(rep: &mut Report) {
 	let lines_given: Vec<(usize, String)> = miri_hist.iter().enumerate().map(|(i, h)| (i, history_line(i, h, expected.get(&i)))).collect();
 	// wall-clock budget of the Miri phase (the list is fixed and handed out round-robin in shortest-first
 	// order, so what a capped run covers is a prefix of it; the cap is reported)
-	let miri_deadline = Duration::from_secs_f64(if thorough { 420.0 } else { 110.0 } * miri_scale());
+	let miri_deadline = Duration::from_secs_f64(if thorough { 1200.0 } else { 110.0 } * miri_scale());
 	let ms = if skip_miri {
 		cover.caps.push("VERIF_C10_SKIP: Miri phases skipped".to_owned());
 		MiriStats { done: HashSet::new(), total: lines_given.len(), processes: 0 }
@@ -875,7 +875,7 @@ pub fn run(rep: &mut Report) {
 	let n_baton = batons.len();
 	order.extend(batons);
 	let mlines: Vec<(usize, String)> = order.iter().map(|i| tlines[*i].clone()).collect();
-	let tdeadline = Duration::from_secs_f64(if thorough { 200.0 } else { 60.0 } * miri_scale());
+	let tdeadline = Duration::from_secs_f64(if thorough { 400.0 } else { 60.0 } * miri_scale());
 	let mt = if skipped("miri") || skipped("threads") {
 		cover.caps.push("VERIF_C10_SKIP: Miri thread phase skipped".to_owned());
 		MiriStats { done: HashSet::new(), total: mlines.len(), processes: 0 }
